@@ -90,7 +90,7 @@ def main():
     # 2. proofs
     proof_ok = False
     try:
-        coqrun.make([mod.PROP_FILE[:-2] + ".vo"])
+        coqrun.make([mod.PROP_FILE[:-2] + ".vo"], keep_going=True)
         assumptions_out = coqrun.compile_prop(mod.PROP_FILE)
         n_closed, axioms = coqrun.parse_assumptions(assumptions_out)
         vfiles = coqrun.deps_of(mod.PROP_FILE)
@@ -104,6 +104,12 @@ def main():
             obligations = coqrun.count_obligations(vfiles)
         except Exception:
             pass
+    # the executable model must be available to the tie even when a proof broke
+    try:
+        if getattr(mod, "MODEL_TARGETS", None):
+            coqrun.make(list(mod.MODEL_TARGETS), keep_going=True)
+    except coqrun.BuildError as e:
+        broken.append({"kind": "tie", "name": "model files do not build (" + e.what + ")", "detail": e.log[-3000:]})
     hy = coqrun.hygiene(vfiles or None)
     if hy:
         broken.append({"kind": "hygiene", "name": "forbidden construct in the development", "detail": hy})
